@@ -6,6 +6,7 @@ import Mathlib.Tactic.Ring
 import Mathlib.Tactic.FieldSimp
 import Mathlib.Tactic.NormNum
 import Mathlib.Tactic.Positivity
+import Mathlib.Tactic.IntervalCases
 /-!
 # Helper lemmas and proofs for properties C08 and C09 (supply series)
 
@@ -1191,5 +1192,479 @@ theorem demandSpec_scale (d : Nat) (annual k : K) (i : Nat) : demandSpec d (k * 
 
 theorem demandSpec_zero_after (d : Nat) (annual : K) (i : Nat) (h : d ≤ i) : demandSpec d annual i = 0 := by
   unfold demandSpec; rw [if_neg (by omega)]
+
+
+/-! ## methane SCP and cellulosic sugar: delay, then steps -/
+
+theorem getElem?_replicate_append {β : Type} (n : Nat) (a : β) (l : List β) (j : Nat) :
+    (List.replicate n a ++ l)[j]? = if j < n then some a else l[j - n]? := by
+  rw [List.getElem?_append, List.length_replicate, List.getElem?_replicate]
+  split_ifs <;> rfl
+
+/-- the 31 months of steps between the delay and the plateau -/
+def scpHead : List Nat :=
+  List.replicate 12 0 ++ List.replicate 5 2 ++ [4] ++ List.replicate 5 7 ++ [9] ++ List.replicate 6 11 ++ [13]
+
+theorem scpHead_get (k : Nat) (hk : k < 31) : scpHead[k]? = some (scpStep k) := by
+  interval_cases k <;> rfl
+
+theorem scpPercentList_eq (d : Nat) :
+    scpPercentList d = List.replicate d 0 ++ (List.replicate d 0 ++ (scpHead ++ List.replicate 1000 15)) := by
+  unfold scpPercentList scpHead
+  simp only [List.append_assoc]
+
+theorem getElem?_scpPercentList (d j : Nat) :
+    (scpPercentList d)[j]? = if j < 2 * d + 1031 then some (if j < 2 * d then 0 else scpStep (j - 2 * d)) else none := by
+  rw [scpPercentList_eq, getElem?_replicate_append, getElem?_replicate_append, List.getElem?_append,
+    List.getElem?_replicate]
+  have hl : scpHead.length = 31 := rfl
+  rw [hl]
+  rcases Nat.lt_or_ge j d with h1 | h1
+  · rw [if_pos h1, if_pos (by omega), if_pos (by omega)]
+  · rw [if_neg (by omega)]
+    rcases Nat.lt_or_ge (j - d) d with h2 | h2
+    · rw [if_pos h2, if_pos (by omega), if_pos (by omega)]
+    · rw [if_neg (by omega)]
+      have hj : j - d - d = j - 2 * d := by omega
+      rw [hj]
+      rcases Nat.lt_or_ge (j - 2 * d) 31 with h3 | h3
+      · rw [if_pos h3, scpHead_get _ h3, if_pos (by omega), if_neg (by omega)]
+      · rw [if_neg (by omega)]
+        rcases Nat.lt_or_ge j (2 * d + 1031) with h4 | h4
+        · have h5 : j - 2 * d - 31 < 1000 := by omega
+          have h6 : scpStep (j - 2 * d) = 15 := by
+            unfold scpStep; split_ifs <;> omega
+          rw [if_pos h5, if_pos h4, if_neg (by omega), h6]
+        · rw [if_neg (by omega), if_neg (by omega)]
+
+theorem scpSeries_ok (add : Bool) (n d : Nat) (slope gp km fr wd : K) (hn : n ≤ 2 * d + 1031) :
+    scpSeries add n d slope gp km fr wd = (List.range n).map (scpSpec add d slope gp km fr wd) := by
+  unfold scpSeries scpSpec
+  cases add
+  · simp only [Bool.false_eq_true, if_false]
+    exact replicate_eq_map_range _ _
+  · simp only [if_true]
+    apply eq_map_range
+    intro j
+    rw [List.getElem?_take, List.getElem?_map, getElem?_scpPercentList]
+    split_ifs <;> first | rfl | omega
+
+theorem scpStep_mono (i j : Nat) (h : i ≤ j) : scpStep i ≤ scpStep j := by
+  unfold scpStep
+  split_ifs <;> omega
+
+theorem scpStep_le (i : Nat) : scpStep i ≤ 15 := by
+  unfold scpStep
+  split_ifs <;> omega
+
+/-- the level of the schedule, in percent of global needs -/
+def scpLevel (d i : Nat) : Nat := if i < 2 * d then 0 else scpStep (i - 2 * d)
+
+/-- the constant that turns a percentage of global needs into billion kcals for this country -/
+def industrialFactor (slope gp km fr wd : K) : K :=
+  1 / (1 - 0.12) * slope / 100.0 * (gp * km / 1e9) * fr * (1 - wd / 100.0)
+
+theorem industrialFactor_nonneg (slope gp km fr wd : K) (h1 : 0 ≤ slope) (h2 : 0 ≤ gp) (h3 : 0 ≤ km) (h4 : 0 ≤ fr)
+    (h5 : wd ≤ 100) : 0 ≤ industrialFactor slope gp km fr wd := by
+  unfold industrialFactor
+  have a1 : (0 : K) ≤ 1 / (1 - 0.12) := by norm_num
+  have a2 : (0 : K) ≤ 100.0 := by norm_num
+  have a3 : (0 : K) ≤ 1e9 := by norm_num
+  exact mul_nonneg (mul_nonneg (mul_nonneg (div_nonneg (mul_nonneg a1 h1) a2)
+    (div_nonneg (mul_nonneg h2 h3) a3)) h4) (wasteFactor_nonneg wd h5)
+
+theorem scpSpec_eq (d : Nat) (slope gp km fr wd : K) (i : Nat) :
+    scpSpec true d slope gp km fr wd i = (scpLevel d i : K) * industrialFactor slope gp km fr wd := by
+  unfold scpSpec scpLevel industrialFactor
+  simp only [if_true]
+  generalize (1 - 0.12 : K) = a1; generalize (100.0 : K) = a2; generalize (1e9 : K) = a3
+  generalize (1 - wd / a2 : K) = a4
+  ring
+
+theorem scpLevel_mono (d i j : Nat) (h : i ≤ j) : scpLevel d i ≤ scpLevel d j := by
+  unfold scpLevel
+  split_ifs with h1 h2
+  · exact le_rfl
+  · exact Nat.zero_le _
+  · omega
+  · exact scpStep_mono _ _ (by omega)
+
+theorem scpLevel_zero (d i : Nat) (h : i < 2 * d + 12) : scpLevel d i = 0 := by
+  unfold scpLevel scpStep
+  split_ifs <;> first | rfl | omega
+
+theorem scpLevel_le (d i : Nat) : scpLevel d i ≤ 15 := by
+  unfold scpLevel
+  split_ifs
+  · omega
+  · exact scpStep_le _
+
+theorem scpSpec_off (d : Nat) (slope gp km fr wd : K) (i : Nat) : scpSpec false d slope gp km fr wd i = 0 := by
+  unfold scpSpec; simp
+
+theorem getElem?_csPercentList (d j : Nat) :
+    (csPercentList d : List K)[j]? = if j < d + 1008 then some (if j < d then 0 else csStep (j - d)) else none := by
+  unfold csPercentList csStep
+  simp only [List.append_assoc, getElem?_replicate_append, List.getElem?_replicate]
+  split_ifs <;> first | rfl | omega
+
+theorem csSeries_ok (add : Bool) (n d : Nat) (slope gp km fr wd : K) (hn : n ≤ d + 1008) :
+    csSeries add n d slope gp km fr wd = (List.range n).map (csSpec add d slope gp km fr wd) := by
+  unfold csSeries csSpec
+  cases add
+  · simp only [Bool.false_eq_true, if_false, replicate_eq_map_range, take_map_range, Nat.min_self]
+  · simp only [if_true]
+    apply eq_map_range
+    intro j
+    rw [List.getElem?_take, List.getElem?_map, getElem?_csPercentList]
+    split_ifs <;> first | rfl | omega
+
+def csLevel (d i : Nat) : K := if i < d then 0 else csStep (i - d)
+
+theorem csStep_nonneg (i : Nat) : (0 : K) ≤ csStep i := by
+  unfold csStep; split_ifs <;> norm_num
+
+theorem csStep_mono (i j : Nat) (h : i ≤ j) : (csStep i : K) ≤ csStep j := by
+  unfold csStep
+  split_ifs <;> first | exact le_rfl | (exfalso; omega) | norm_num
+
+theorem csStep_le (i : Nat) : (csStep i : K) ≤ 9.5 := by
+  unfold csStep; split_ifs <;> norm_num
+
+theorem csLevel_mono (d i j : Nat) (h : i ≤ j) : (csLevel d i : K) ≤ csLevel d j := by
+  unfold csLevel
+  split_ifs with h1 h2
+  · exact le_rfl
+  · exact csStep_nonneg _
+  · omega
+  · exact csStep_mono _ _ (by omega)
+
+theorem csLevel_zero (d i : Nat) (h : i < d + 5) : (csLevel d i : K) = 0 := by
+  unfold csLevel csStep
+  split_ifs <;> first | rfl | (exfalso; omega) | norm_num
+
+theorem csLevel_nonneg (d i : Nat) : (0 : K) ≤ csLevel d i := by
+  unfold csLevel; split_ifs
+  · exact le_rfl
+  · exact csStep_nonneg _
+
+theorem csLevel_le (d i : Nat) : (csLevel d i : K) ≤ 9.5 := by
+  unfold csLevel; split_ifs
+  · norm_num
+  · exact csStep_le _
+
+theorem csSpec_eq (d : Nat) (slope gp km fr wd : K) (i : Nat) :
+    csSpec true d slope gp km fr wd i = csLevel d i * industrialFactor slope gp km fr wd := by
+  unfold csSpec csLevel industrialFactor
+  simp only [if_true]
+  generalize (1 - 0.12 : K) = a1; generalize (100.0 : K) = a2; generalize (1e9 : K) = a3
+  generalize (1 - wd / a2 : K) = a4
+  ring
+
+theorem csSpec_off (d : Nat) (slope gp km fr wd : K) (i : Nat) : csSpec false d slope gp km fr wd i = 0 := by
+  unfold csSpec; simp
+
+
+/-! ## seaweed -/
+
+/-- `linspace(init, (n−1)·step + init, n)[k] = k·step + init` -/
+theorem getElem?_linspace_arith (init step : K) (n k : Nat) :
+    (linspace init (((n - 1 : Nat) : K) * step + init) n)[k]? = if k < n then some ((k : K) * step + init) else none := by
+  rcases Nat.lt_or_ge n 2 with hn | hn
+  · unfold linspace
+    rw [getElem?_map_range]
+    have h2 : ¬ 1 < n := by omega
+    simp only [h2, if_false]
+    split_ifs with h1
+    · have hk : k = 0 := by omega
+      subst hk; simp
+    · rfl
+  · rw [getElem?_linspace _ _ _ _ hn]
+    split_ifs with h
+    · congr 1
+      have hn1 : ((n - 1 : Nat) : K) ≠ 0 := by
+        have : 0 < n - 1 := by omega
+        exact_mod_cast this.ne'
+      field_simp
+      ring
+    · rfl
+
+theorem seaweedBuiltArea_ok (add : Bool) (n delay : Nat) (newFrac maxFrac : K) :
+    seaweedBuiltArea add n delay newFrac maxFrac
+      = (List.range n).map (seaweedAreaSpec add delay newFrac maxFrac) := by
+  unfold seaweedBuiltArea seaweedAreaSpec
+  apply eq_map_range
+  intro j
+  simp only
+  rw [List.getElem?_take, List.getElem?_map, getElem?_replicate_append, getElem?_linspace_arith]
+  generalize (if add = true then delay else 1000) = d
+  rcases Nat.lt_or_ge j n with hj | hj
+  · rw [if_pos hj, if_pos hj]
+    rcases Nat.lt_or_ge j d with hd | hd
+    · rw [if_pos hd, if_pos hd]; rfl
+    · have h1 : ¬ j < d := by omega
+      have h2 : j - d < n := by omega
+      rw [if_neg h1, if_pos h2, if_neg h1]; rfl
+  · have h1 : ¬ j < n := by omega
+    rw [if_neg h1, if_neg h1]
+
+/-- the uncapped area -/
+def seaweedRaw (d : Nat) (newFrac : K) (i : Nat) : K :=
+  if i < d then seaweedInitBuilt newFrac else ((i - d : Nat) : K) * seaweedNewPerMonth newFrac + seaweedInitBuilt newFrac
+
+theorem seaweedAreaSpec_eq (add : Bool) (delay : Nat) (newFrac maxFrac : K) (i : Nat) :
+    seaweedAreaSpec add delay newFrac maxFrac i
+      = min (seaweedMaxArea maxFrac) (seaweedRaw (if add then delay else 1000) newFrac i) := by
+  unfold seaweedAreaSpec seaweedRaw
+  simp only
+  split_ifs with h1 h2 h3 h4 <;> first
+    | exact (min_eq_left (le_of_lt (by assumption))).symm
+    | exact (min_eq_right (not_lt.mp (by assumption))).symm
+
+theorem seaweedNewPerMonth_nonneg (newFrac : K) (h : 0 ≤ newFrac) : 0 ≤ seaweedNewPerMonth newFrac := by
+  unfold seaweedNewPerMonth
+  exact mul_nonneg (by norm_num) h
+
+theorem seaweedRaw_mono (d : Nat) (newFrac : K) (i j : Nat) (hij : i ≤ j) (h : 0 ≤ newFrac) :
+    seaweedRaw d newFrac i ≤ seaweedRaw d newFrac j := by
+  have hs := seaweedNewPerMonth_nonneg newFrac h
+  unfold seaweedRaw
+  split_ifs with h1 h2
+  · exact le_rfl
+  · have : 0 ≤ ((j - d : Nat) : K) * seaweedNewPerMonth newFrac := mul_nonneg (Nat.cast_nonneg _) hs
+    linarith
+  · omega
+  · have h3 : ((i - d : Nat) : K) ≤ ((j - d : Nat) : K) := by
+      have : i - d ≤ j - d := by omega
+      exact_mod_cast this
+    nlinarith
+
+theorem seaweedRaw_before (d : Nat) (newFrac : K) (i : Nat) (h : i ≤ d) : seaweedRaw d newFrac i = seaweedInitBuilt newFrac := by
+  unfold seaweedRaw
+  split_ifs with h1
+  · rfl
+  · have : i - d = 0 := by omega
+    rw [this]; simp
+
+theorem npow_eq_pow (x : K) (n : Nat) : npow x n = x ^ n := by
+  induction n with
+  | zero => simp [npow]
+  | succ n ih => rw [npow, ih, pow_succ]
+
+theorem growthFactor_eq (p : K) : growthFactor p = 100 * (p / 100 + 1) ^ 30 := by
+  unfold growthFactor
+  rw [npow_eq_pow, sci_100]
+
+theorem growthFactor_ge (p : K) (hp : 0 ≤ p) : 100 ≤ growthFactor p := by
+  rw [growthFactor_eq]
+  have h1 : (1 : K) ≤ p / 100 + 1 := by
+    have : 0 ≤ p / 100 := div_nonneg hp (by norm_num)
+    linarith
+  have h2 : (1 : K) ≤ (p / 100 + 1) ^ 30 := one_le_pow₀ h1
+  linarith
+
+/-- the columns may come in any order: the result is the list sorted by the integer key -/
+theorem seaweedGrowth_ok (cols sorted : List (Int × K)) (hperm : cols.Perm sorted)
+    (hs : sorted.Pairwise (fun a b => a.1 ≤ b.1))
+    (hinj : ∀ a ∈ sorted, ∀ b ∈ sorted, a.1 = b.1 → a = b) :
+    seaweedGrowth cols = sorted.map fun c => 100 * (c.2 / 100 + 1) ^ 30 := by
+  unfold seaweedGrowth
+  have hms : (cols.mergeSort fun a b => decide (a.1 ≤ b.1)) = sorted := by
+    apply List.Perm.eq_of_pairwise (le := fun a b => a.1 ≤ b.1)
+    · intro a b ha hb h1 h2
+      have ha' : a ∈ sorted := hperm.mem_iff.mp ((List.mergeSort_perm _ _).mem_iff.mp ha)
+      exact hinj a ha' b hb (le_antisymm h1 h2)
+    · have := List.pairwise_mergeSort (le := fun (a b : Int × K) => decide (a.1 ≤ b.1))
+        (fun a b c h1 h2 => by simp only [decide_eq_true_eq] at *; exact le_trans h1 h2)
+        (fun a b => by simp only [Bool.or_eq_true, decide_eq_true_eq]; exact le_total _ _) cols
+      simpa using this
+    · exact hs
+    · exact (List.mergeSort_perm _ _).trans hperm
+  rw [hms]
+  apply List.map_congr_left; intro c _
+  exact growthFactor_eq c.2
+
+theorem seaweedGrowth_length (cols : List (Int × K)) : (seaweedGrowth cols).length = cols.length := by
+  unfold seaweedGrowth
+  rw [List.length_map, List.length_mergeSort]
+
+/-! ## stored food -/
+
+theorem storedFood_ok (sm : Nat) (stocks : List K) (unt pct wd : K) (h1 : 1 ≤ sm ∧ sm ≤ 12)
+    (h2 : stocks.length = 12) (h3 : unt ≤ pct / 100.0)
+    (h4 : 0 ≤ stocks.getD ((sm + 10) % 12) 0 * (pct / 100.0) - listMin stocks * unt) :
+    storedFood sm stocks unt pct wd = .ok (storedFoodSpec sm stocks unt pct wd) := by
+  unfold storedFood storedFoodSpec
+  have hidx : (if sm = 1 then 11 else sm - 2) = (sm + 10) % 12 := by
+    split_ifs <;> omega
+  simp only [h1, h2, h3, hidx, h4, not_true_eq_false, if_false, ne_eq, and_self]
+
+theorem storedFoodSpec_nonneg (sm : Nat) (stocks : List K) (unt pct wd : K)
+    (h4 : 0 ≤ stocks.getD ((sm + 10) % 12) 0 * (pct / 100.0) - listMin stocks * unt) (hw : wd ≤ 100) :
+    0 ≤ storedFoodSpec sm stocks unt pct wd := by
+  unfold storedFoodSpec
+  have a1 : (0 : K) ≤ 4e6 := by norm_num
+  have a2 : (0 : K) ≤ 1e9 := by norm_num
+  exact mul_nonneg (div_nonneg (mul_nonneg h4 a1) a2) (wasteFactor_nonneg wd hw)
+
+theorem pmin_scale (k a b : K) (hk : 0 ≤ k) : pmin (k * a) (k * b) = k * pmin a b := by
+  unfold pmin
+  by_cases h : b < a
+  · rcases eq_or_lt_of_le hk with h0 | h0
+    · subst h0; simp
+    · rw [if_pos (mul_lt_mul_of_pos_left h h0), if_pos h]
+  · have : ¬ k * b < k * a := not_lt.mpr (mul_le_mul_of_nonneg_left (not_lt.mp h) hk)
+    rw [if_neg this, if_neg h]
+
+theorem foldl_pmin_scale (k : K) (hk : 0 ≤ k) (l : List K) (a : K) :
+    (l.map (k * ·)).foldl pmin (k * a) = k * l.foldl pmin a := by
+  induction l generalizing a with
+  | nil => rfl
+  | cons x t ih => simp only [List.map_cons, List.foldl_cons, pmin_scale k a x hk, ih]
+
+theorem listMin_scale (k : K) (hk : 0 ≤ k) (l : List K) : listMin (l.map (k * ·)) = k * listMin l := by
+  cases l with
+  | nil => simp [listMin]
+  | cons x t => simp only [List.map_cons, listMin, foldl_pmin_scale k hk]
+
+theorem storedFoodSpec_scale (sm : Nat) (stocks : List K) (unt pct wd k : K) (hk : 0 ≤ k) :
+    storedFoodSpec sm (stocks.map (k * ·)) unt pct wd = k * storedFoodSpec sm stocks unt pct wd := by
+  unfold storedFoodSpec
+  rw [listMin_scale k hk]
+  have : (stocks.map (k * ·)).getD ((sm + 10) % 12) 0 = k * stocks.getD ((sm + 10) % 12) 0 := by
+    rw [List.getD_eq_getElem?_getD, List.getD_eq_getElem?_getD, List.getElem?_map]
+    cases stocks[(sm + 10) % 12]? <;> simp
+  rw [this]
+  generalize (4e6 : K) = a3; generalize (1e9 : K) = a4; generalize (100.0 : K) = a6
+  ring
+
+
+/-! ## grass: years of 8, 12, …, 12, 16 months -/
+
+theorem foldl_append_flatMap {β γ : Type} (f : γ → List β) (l : List γ) (init : List β) :
+    l.foldl (fun acc i => acc ++ f i) init = init ++ l.flatMap f := by
+  induction l generalizing init with
+  | nil => simp
+  | cons x t ih => simp only [List.foldl_cons, ih, List.flatMap_cons, List.append_assoc]
+
+theorem flatMap_congr' {β γ : Type} (f g : γ → List β) (l : List γ) (h : ∀ x ∈ l, f x = g x) :
+    l.flatMap f = l.flatMap g := by
+  induction l with
+  | nil => rfl
+  | cons x t ih =>
+    simp only [List.flatMap_cons, h x (by simp), ih (fun y hy => h y (by simp [hy]))]
+
+/-- the loop of `MeatAndDairy.__init__` for a horizon of `Y ≥ 2` whole years -/
+theorem grassTons_eq (Y : Nat) (hY : 2 ≤ Y) (base : K) (ratio : Nat → K) :
+    grassTons (12 * Y) base ratio =
+      List.replicate 8 (ratio 1 * base)
+        ++ ((List.range (Y - 2)).flatMap fun k => List.replicate 12 (ratio (k + 2) * base))
+        ++ List.replicate 16 (ratio Y * base) := by
+  unfold grassTons
+  have hdiv : 12 * Y / 12 = Y := by omega
+  rw [hdiv, foldl_append_flatMap, List.nil_append, List.range'_eq_map_range, List.flatMap_map]
+  have hsplit : Y = 1 + ((Y - 2) + 1) := by omega
+  conv_lhs => rw [hsplit, List.range_add, List.range_succ]
+  simp only [List.flatMap_append, List.map_append, List.flatMap_map, List.range_one, List.flatMap_cons,
+    List.flatMap_nil, List.append_nil, List.map_cons, List.map_nil]
+  congr 1
+  · congr 1
+    · simp
+    · apply flatMap_congr'
+      intro k hk
+      have hk' := List.mem_range.mp hk
+      have h1 : ¬ (1 + (1 + k) = 1) := by omega
+      have h2 : ¬ (12 * (1 + (1 + k)) = 12 * Y) := by omega
+      have h3 : 1 + (1 + k) = k + 2 := by omega
+      simp only [h1, h2, if_false, h3]
+  · have h1 : ¬ (1 + (1 + (Y - 2)) = 1) := by omega
+    have h2 : 12 * (1 + (1 + (Y - 2))) = 12 * Y := by omega
+    have h3 : 1 + (1 + (Y - 2)) = Y := by omega
+    simp only [h1, h2, if_false, if_true, h3]
+
+theorem getElem?_grassTons (Y : Nat) (hY : 2 ≤ Y) (base : K) (ratio : Nat → K) (i : Nat) :
+    (grassTons (12 * Y) base ratio)[i]? =
+      if i < 12 * Y then some (ratio (grassYear Y i + 1) * base) else none := by
+  rw [grassTons_eq Y hY, List.getElem?_append, List.length_append, List.length_replicate,
+    length_flatMap_blocks _ 12 (fun k => by simp), List.getElem?_append, List.length_replicate,
+    List.getElem?_replicate, getElem?_flatMap_replicate, List.getElem?_replicate]
+  unfold grassYear
+  rcases Nat.lt_or_ge i 8 with h8 | h8
+  · have h1 : i < 8 + (Y - 2) * 12 := by omega
+    have h2 : i < 12 * Y := by omega
+    rw [if_pos h1, if_pos h8, if_pos h8, if_pos h2, if_pos h8]
+  · have hn8 : ¬ i < 8 := by omega
+    rcases Nat.lt_or_ge i (8 + (Y - 2) * 12) with hm | hm
+    · have h2 : i < 12 * Y := by omega
+      have h3 : i - 8 < (Y - 2) * 12 := by omega
+      have hq : Nat.min (Y - 1) (1 + (i - 8) / 12) + 1 = (i - 8) / 12 + 2 := by
+        have : (i - 8) / 12 < Y - 2 := by omega
+        simp only [Nat.min_def]; split_ifs <;> omega
+      rw [if_pos hm, if_neg hn8, if_pos h3, if_pos h2, if_neg hn8, hq]
+    · have hnm : ¬ i < 8 + (Y - 2) * 12 := by omega
+      rcases Nat.lt_or_ge i (12 * Y) with h2 | h2
+      · have h16 : i - (8 + (Y - 2) * 12) < 16 := by omega
+        have hq : Nat.min (Y - 1) (1 + (i - 8) / 12) + 1 = Y := by
+          have : Y - 2 ≤ (i - 8) / 12 := by omega
+          simp only [Nat.min_def]; split_ifs <;> omega
+        rw [if_neg hnm, if_pos h16, if_pos h2, if_neg hn8, hq]
+      · have h16 : ¬ i - (8 + (Y - 2) * 12) < 16 := by omega
+        rw [if_neg hnm, if_neg h16, if_neg (by omega)]
+
+theorem tonsToKcals_eq : (tonsToKcals : K) = 4000 := by
+  unfold tonsToKcals; norm_num
+
+/-- well-formed grass inputs: whole years, at least two, one ratio per year, each within the code's bounds -/
+structure GrassWF (n : Nat) (ratios : List K) : Prop where
+  years : 12 * (n / 12) = n
+  two : 24 ≤ n
+  enough : n / 12 ≤ ratios.length
+  bounds : ∀ r ∈ ratios.take (n / 12), 0 ≤ r ∧ r ≤ 10000
+
+theorem grassSeries_ok (n : Nat) (base : K) (ratios : List K) (w : GrassWF n ratios) :
+    grassSeries n base ratios = .ok ((List.range n).map (grassSpec n base ratios)) := by
+  unfold grassSeries
+  have h1 : ¬ ratios.length < n / 12 := by have := w.enough; omega
+  have h2 : ((ratios.take (n / 12)).any fun r => !(decide (0 ≤ r ∧ r ≤ 10000.0))) = false := by
+    rw [List.any_eq_false]
+    intro r hr
+    have := w.bounds r hr
+    have e : (10000.0 : K) = 10000 := by norm_num
+    simp [this.1, e, this.2]
+  simp only [h1, if_false, h2, Bool.false_eq_true]
+  congr 1
+  apply eq_map_range
+  intro i
+  have hY : 2 ≤ n / 12 := by have := w.two; omega
+  rw [List.getElem?_map]
+  conv_lhs => rw [← w.years]
+  rw [getElem?_grassTons (n / 12) hY, w.years]
+  split_ifs with h
+  · simp only [Option.map_some, grassSpec, tonsToKcals_eq]
+    congr 1
+    have : (4000.0 : K) = 4000 := by norm_num
+    rw [this, Nat.add_sub_cancel]
+  · rfl
+
+theorem grassSpec_nonneg (n : Nat) (base : K) (ratios : List K) (i : Nat) (hb : 0 ≤ base) (hr : ∀ r ∈ ratios, 0 ≤ r) :
+    0 ≤ grassSpec n base ratios i := by
+  unfold grassSpec
+  have h0 : 0 ≤ ratios.getD (grassYear (n / 12) i) 0 := by
+    rw [List.getD_eq_getElem?_getD]
+    cases hg : ratios[grassYear (n / 12) i]? with
+    | none => simp
+    | some v => simpa using hr v (List.mem_of_getElem? hg)
+  exact mul_nonneg (by norm_num) (mul_nonneg h0 hb)
+
+theorem grassSpec_scale (n : Nat) (base k : K) (ratios : List K) (i : Nat) :
+    grassSpec n (k * base) ratios i = k * grassSpec n base ratios i := by
+  unfold grassSpec
+  generalize (4000.0 : K) = a
+  ring
+
+/-- outside the supported horizons: `NMONTHS = 12` yields the eight months of year 1 only -/
+theorem grassTons_twelve (base : K) (ratio : Nat → K) : grassTons 12 base ratio = List.replicate 8 (ratio 1 * base) := by
+  unfold grassTons
+  simp
 
 end Allfed.Proofs.Supply
